@@ -51,10 +51,11 @@
 (*   late      default constructed, then get_promise(): init_if_needed +   *)
 (*             get_promise of the future + charge         sh_f.h:130-145   *)
 (*   shl       default constructed, init_if_needed(), then `f << fn` with  *)
-(*             fn returning a pending future<T>           sh_f.h:197-202   *)
-(*             Fixed = FALSE: the code as found -- operator<< replaces the *)
-(*             future in the state and returns: the tracer is NOT charged, *)
-(*             the pending state is kept alive by the handles only.        *)
+(*             fn returning a pending future<T>           sh_f.h:197-205   *)
+(*             Fixed = FALSE: the code as found before /repo 75cf97d --    *)
+(*             operator<< replaces the future in the state and returns:    *)
+(*             the tracer is NOT charged, the pending state is kept alive  *)
+(*             by the handles only (violates AliveWhilePending).           *)
 (*             Fixed = TRUE: the repaired operator<< (init_if_needed,      *)
 (*             result_of, `if (pending()) charge`) = the steps of retfut.  *)
 (*                                                                         *)
